@@ -51,7 +51,8 @@ def main() -> int:
         return 1
     os.makedirs(dst, exist_ok=True)
     for f in ("patch.diff", "demo.py"):
-        shutil.copy(os.path.join(d, f), os.path.join(dst, f))
+        if os.path.abspath(os.path.join(d, f)) != os.path.abspath(os.path.join(dst, f)):
+            shutil.copy(os.path.join(d, f), os.path.join(dst, f))
     with open(os.path.join(dst, "meta.json"), "w", encoding="utf-8") as fd:
         json.dump(meta, fd, indent=1)
         fd.write("\n")
